@@ -226,3 +226,17 @@ Definition ir_view (r : rule) : rule :=
   {| r_group := r_group r; r_patterns := r_patterns r; r_where := ir_where_of (r_where r); r_suggest := r_suggest r;
      (* a rule with Suggest and no Report gets the report template "suggestion: <suggest>" *)
      r_report := match r_report r with EmptyString => "suggestion: " ++ r_suggest r | t => t end |}.
+
+(* ---------- redundantSprint: fmt.Sprint($x) / Sprintf("%s"|"%v", $x) => $x.String() for a fmt.Stringer ----------
+   What fmt prints for %v / %s (fmt/print.go handleMethods): a Formatter formats itself; otherwise an error
+   prints Error(); otherwise a Stringer prints String(); otherwise the raw value.  An operand is described by
+   the results of the methods it has. *)
+Record fmt_operand := { fo_raw : string; fo_format : option string; fo_error : option string; fo_string : option string }.
+Definition fmt_sprint (o : fmt_operand) : string :=
+  match fo_format o with
+  | Some f => f
+  | None => match fo_error o with
+            | Some e => e
+            | None => match fo_string o with Some s => s | None => fo_raw o end
+            end
+  end.
